@@ -54,7 +54,7 @@ RULE = ("cases = (shape, chunking, dtype, encoded index, value mode). Complete p
         "1-4 d arrays with axis lengths 0-9, random chunkings, random documented index tuples, 9 value modes x {NumPy, list, "
         "dask}. non-trivial = some axis split into >= 2 chunks; distinct = distinct (shape, chunks, dtype, index, value mode).")
 ASSUMPTIONS = ["NumPy 2.x assignment defines the expected array", "sync scheduler (threads for a tenth)"]
-BUDGET = {"quick": 200, "thorough": 900}
+BUDGET = {"quick": 120, "thorough": 900}
 FLOORS = {"quick": {"evaluations": 1, "distinct_nontrivial": 1, "counters": {}, "max_skipped_fraction": 0.35},
           "thorough": {"evaluations": 1, "distinct_nontrivial": 1, "counters": {}, "max_skipped_fraction": 0.35}}
 EXHAUSTIVE_SPACE = {
@@ -155,7 +155,7 @@ def cases(tier, seed):
                 enc = _adapt(enc, shape) if shape not in ((5,), (3, 2)) else copy.deepcopy(enc)
                 yield {"space": "exhaustive", "shape": list(shape), "chunks": [list(c) for c in chs], "dtype": "int64" if k % 3 else "float64",
                        "index": enc, "bare": len(enc) == 1 and k % 2 == 0, "vmode": vmode, "vkind": vkind, "vseed": k}
-    n = 7000 if tier == "quick" else 120000
+    n = 6000 if tier == "quick" else 100000
     for _ in range(n):
         nd = rng.choice((1, 1, 1, 2, 2, 2, 3, 3, 4))
         maxlen = {1: 9, 2: 9, 3: 6, 4: 4}[nd]
@@ -347,10 +347,12 @@ def run_case(case, ctx):
             ctx.count("dask_values")
         ctx.sample = {"index": IX.show(enc), "chunks": case["chunks"], "value": out.vdesc}
         return
-    if (out.status == "exc" and out.symptom == "ValueError@array/slicing.py:setitem_array" and 0 in out.selshape
-            and out.vshape and 0 in out.vshape):
-        # direct mechanism predicate (robust against the many shapes an empty selection can take)
-        label, detail = "setitem:empty-selection&value=zero-size-array:" + out.symptom, {}
+    if (out.status == "exc" and out.symptom == "ValueError@array/slicing.py:setitem_array" and 0 in out.selshape and out.vshape):
+        # direct mechanism predicate (robust against the many forms an empty selection can take): dask refuses
+        # every value with an axis longer than 1 for an empty selection, and computes a negative implied size for
+        # empty negative-step slices
+        vt = "array-with-axis-longer-than-1" if max(out.vshape) > 1 else "zero-size-array"
+        label, detail = "setitem:empty-selection&value=%s:%s" % (vt, out.symptom), {}
     else:
         label, detail = classify(shape, chunks, case["dtype"], enc, bare, out.vmode or vmode, vkind, vseed, out.symptom)
     detail.update({"index": IX.show(enc), "shape": list(shape), "chunks": case["chunks"], "value": out.vdesc})
@@ -393,5 +395,7 @@ def classify(shape, chunks, dtype, enc, bare, vmode, vkind, vseed, sym):
     elif vk == "list" and vm not in ("scalar", "npscalar", "np0d"):
         vtok = "list-" + vtok
     feat = IX.label_features(enc_m, shape_m, chunks_m)
+    if not bare and any(e["k"] == "mask" for e in enc_m):
+        feat = feat.replace("full-shape-dask-mask", "tuple-wrapped-full-shape-dask-mask")
     label = "setitem:%s&value=%s:%s" % (feat, vtok, sym_m)
     return label, {"minimal": {"index": IX.show(enc_m), "shape": list(shape_m), "chunks": [list(c) for c in chunks_m], "vmode": vm, "vkind": vk}}
